@@ -497,6 +497,7 @@ class KeyChecker:
         self.atom_cache = {}
         self.string_identity = []
         self.tables_seen = {}
+        self.table_orders = {}
         self.fn_cover = {}
 
     def check_atom_fn(self, kind, extra, loc=None):
@@ -560,6 +561,17 @@ class KeyChecker:
                         self.pair(f2, inst, snap2, objP, keyQ, compQ, ifid2, n2, extra_covered)
         return hit
 
+    def finish_orders(self):
+        """One order per table: every request that searches a table compares the same kinds of component in the same sequence."""
+        for tkey, kinds in sorted(self.table_orders.items()):
+            if len(kinds) > 1:
+                desc = '; '.join(f'{"/".join(k) or "nothing"} by {contracts.short(contracts.fn_qname(v[0][1]))} (request {v[0][0]})' for k, v in sorted(kinds.items()))
+                first = sorted(kinds.items())[0][1][0]
+                self.ck.fail(self.R_diag, f'{tkey}/one order', f'the table {tkey} is searched under different orders: {desc} -- an element entered under '
+                             'one order is not found under the other (the same request through another route gets a second node)', loc=first[2], fn=first[1])
+            else:
+                self.ck.ok(self.R_diag, f'{tkey}/one order')
+
     def table_name(self, cont, st):
         """Stable name of a container: the field path, with abstract objects named by their class."""
         t = cont
@@ -589,6 +601,10 @@ class KeyChecker:
         shape = LexShape()
         seq = shape.analyse(outs, base)
         loc = cf['loc']
+        # how this request orders the table: the kinds of component comparison, in order (two requests that search one table must
+        # order it the same way, or each cuts the other's elements off)
+        tkey = inst.split('/')[1] if '/' in inst else inst
+        self.table_orders.setdefault(tkey, {}).setdefault(tuple(k_ for (k_, _a, _b, _x) in seq), []).append((inst, cmp_fid, loc))
         ck.check(self.R_lex, inst, not shape.problems, f'comparator {cmp_fid}: ' + '; '.join(shape.problems),
                  loc=loc, fn=cmp_fid)
         if not seq:
@@ -827,6 +843,7 @@ class KeyChecker:
                      loc=f['loc'], fn=f['id'])
 
     def finish_cover(self):
+        self.finish_orders()
         for fid, fc in sorted(self.fn_cover.items()):
             f = fc['f']
             missing = [i for i in range(fc['n']) if i not in fc['covered']]
